@@ -51,3 +51,30 @@ def sameWidth (w : Nat) : NodeList → Bool
 end
 
 end ILV.IR
+
+namespace ILV.IR
+
+mutual
+/-- no `Aggregate` anywhere in the tree -/
+def aggFree : Node → Bool
+  | .aggregate .. => false
+  | .scan .. => true
+  | .hnsw .. => true
+  | .map i _ _ => aggFree i
+  | .filter i _ => aggFree i
+  | .join l r _ _ _ => aggFree l && aggFree r
+  | .distinct i => aggFree i
+  | .union is => aggFreeL is
+  | .antijoin l r _ _ _ => aggFree l && aggFree r
+  | .compute i _ => aggFree i
+  | .flatMap i _ _ _ => aggFree i
+  | .joinFlatMap l r _ _ _ _ _ => aggFree l && aggFree r
+def aggFreeL : NodeList → Bool
+  | .nil => true
+  | .cons t ts => aggFree t && aggFreeL ts
+end
+
+/-- equality as sets -/
+def SetEq (a b : List Tuple) : Prop := ∀ x, x ∈ a ↔ x ∈ b
+
+end ILV.IR
